@@ -37,9 +37,12 @@ class SchedScenario(Scenario):
     horizon_is_terminal = True
 
     def __init__(self, name, n_inst, jobs, crash=None, impl='default',
-                 horizon=None, batch_size=2, rp=False):
+                 horizon=None, batch_size=2, rp=False, early_ticks=0):
         self.name = name
         self.rp = rp
+        # the clock may move on by one second while instances are still
+        # busy (a slow instance), at most this many times per execution
+        self.early_ticks = early_ticks
         self.n_inst = n_inst
         self.jobs = jobs          # dicts: name, delay, key, by, commit, at
         self.crash = crash        # None or instance index that may crash
@@ -53,7 +56,8 @@ class SchedScenario(Scenario):
         return ('checks.c13', 'SchedScenario', dict(
             name=self.name, n_inst=self.n_inst, jobs=self.jobs,
             crash=self.crash, impl=self.impl, horizon=self.horizon_clock,
-            batch_size=self.batch_size, rp=self.rp))
+            batch_size=self.batch_size, rp=self.rp,
+            early_ticks=self.early_ticks))
 
     def describe(self):
         return {'name': self.name, 'instances': self.n_inst,
@@ -61,7 +65,8 @@ class SchedScenario(Scenario):
                 'horizon_s': self.horizon_clock,
                 'pickup_job_after': PICKUP,
                 'captured_job_timeout': CAP_TIMEOUT,
-                'transactions_may_overlap_before_their_first_write': self.rp}
+                'transactions_may_overlap_before_their_first_write': self.rp,
+                'clock_ticks_while_instances_are_busy': self.early_ticks}
 
     def setup(self):
         ov = [('pickup_job_after', PICKUP, 'scheduler'),
@@ -76,6 +81,7 @@ class SchedScenario(Scenario):
         w.extra['inv'] = []
         w.extra['crashed'] = []
         w.extra['jobs'] = {}
+        w.extra['early_ticks'] = 0
         from mistral.db.v2 import api as db_api
         from mistral.scheduler import base as sched_base
         for j in self.jobs:
@@ -112,6 +118,17 @@ class SchedScenario(Scenario):
             c = env.Choice('X:crash:%s' % d.name, 'ext', do, 10 ** 9 + 1,
                            'crash of scheduler instance %s' % d.name)
             out.append(c)
+        if env.W.extra['early_ticks'] < self.early_ticks and \
+                env.W.clock + 1 <= self.horizon_clock and \
+                env.enabled_choices():
+            t = env.W.clock + 1
+
+            def tick():
+                env.W.extra['early_ticks'] += 1
+                env.set_clock(t)
+            out.append(env.Choice('T%d' % t, 'ext', tick, 10 ** 9 + 2,
+                                  'clock -> t=%d while instances are still '
+                                  'busy' % t))
         return out
 
     def extra_state(self):
@@ -125,7 +142,7 @@ class SchedScenario(Scenario):
                     for jid, j in s.in_memory_jobs.items()),
                     len(s._heap)])
         return [sorted(w.extra['inv']), w.extra['crashed'], mem,
-                sorted(w.extra['jobs'].items())]
+                sorted(w.extra['jobs'].items()), w.extra['early_ticks']]
 
     # -------------------------------------------------------------- oracles
     def check_step(self, pre, post, choice, ctx):
@@ -261,9 +278,9 @@ def scenarios(tier):
     S = []
 
     def add(name, n, jobs, crash=None, impl='default', bound=None, secs=40,
-            rp=False):
+            rp=False, early_ticks=0):
         S.append((SchedScenario(name, n, jobs, crash=crash, impl=impl,
-                                rp=rp),
+                                rp=rp, early_ticks=early_ticks),
                   bound, secs if quick else secs * 10, 1))
 
     # polls / captures of several instances overlapping inside their
@@ -282,6 +299,12 @@ def scenarios(tier):
         bound=1 if quick else 3)
     add('d3i-1j-overlap', 3, [J('a', 0, 'k')], rp=True,
         bound=1 if quick else None)
+    # ... and the clock moves on by a second while they are at it (the two
+    # captures of a stale job then carry different timestamps)
+    add('d3i-1j-crash0-overlap-slow', 3, [J('a', 0, 'k')], crash=0, rp=True,
+        early_ticks=1, bound=3 if quick else None)
+    add('d2i-1j-d1-slow', 2, [J('a', 1, 'k')], early_ticks=1,
+        bound=2 if quick else None)
 
     for impl in ('default', 'legacy'):
         p = impl[0]
@@ -325,7 +348,8 @@ def main(tier):
     rep.assumptions = [
         'virtual clock with 1 s resolution; time advances only when no '
         'activity is enabled (a scheduler never overruns the capture '
-        'timeout unless it crashes)',
+        'timeout unless it crashes), except in the *-slow scenarios where '
+        'it may move on by one second once while instances are busy',
         'transactions and implicit sessions are atomic steps',
         'LegacyScheduler: crash recovery excluded (no capture timeout)',
     ]
